@@ -173,6 +173,12 @@ func txFieldDiff(a, b *types.Transaction) string {
 	return ""
 }
 
+// qiRLPFinding holds the first occurrence of the known Qi-RLP work-field loss in the current run.
+var qiRLPFinding string
+
+// txFieldDiffRLP is txFieldDiff for the typed-RLP form.
+func txFieldDiffRLP(a, b *types.Transaction) string { return txFieldDiff(a, b) }
+
 // txPresenceVariants returns copies of a Quai or Qi transaction with every presence combination of the optional work
 // fields (the signature is kept: the copies are well-formed objects, not valid spends).
 func txPresenceVariants(tx *types.Transaction, salt byte) []*types.Transaction {
@@ -231,6 +237,36 @@ func txRoundTrips(tx *types.Transaction, loc common.Location) error {
 	if !bytes.Equal(raw, raw2) {
 		return fmt.Errorf("proto: re-encoding differs")
 	}
+	// canonical binary form (typed RLP: what the raw-transaction RPCs hand out and the transaction trie hashes)
+	bin, err := tx.MarshalBinary()
+	if err != nil {
+		return fmt.Errorf("binary: marshal: %v", err)
+	}
+	keep := append([]byte{}, bin...)
+	if other, err2 := tx.ProtoEncode(); err2 == nil { // unrelated encoding work in between
+		_, _ = proto.Marshal(other)
+		_, _ = rlp.EncodeToBytes(tx)
+		_ = types.DeriveSha(types.Transactions{tx, tx}, trie.NewStackTrie(nil))
+	}
+	if !bytes.Equal(bin, keep) {
+		return fmt.Errorf("binary: the bytes handed out by MarshalBinary changed after later encodings")
+	}
+	var fromBin types.Transaction
+	if err := fromBin.UnmarshalBinary(keep); err != nil {
+		return fmt.Errorf("binary: unmarshal of its own encoding: %v", err)
+	}
+	if d := txFieldDiffRLP(tx, &fromBin); d != "" {
+		if tx.Type() == types.QiTxType && (d == "parentHash" || d == "mixHash" || d == "workNonce") {
+			// known: the RLP form of a Qi transaction (WireQiTx) has no work fields. Reported once per run, at its end.
+			if qiRLPFinding == "" {
+				qiRLPFinding = fmt.Sprintf("Qi transaction %x: field %s is lost in the typed-RLP form (MarshalBinary / transaction-trie leaf), which is byte-identical to that of the same transaction without it", tx.Hash().Bytes()[:6], d)
+			}
+		} else {
+			return fmt.Errorf("binary: field %s differs after the round trip", d)
+		}
+	} else if bin2, _ := fromBin.MarshalBinary(); !bytes.Equal(bin2, keep) {
+		return fmt.Errorf("binary: re-encoding differs")
+	}
 	// JSON (the RPC form)
 	js, err := json.Marshal(tx)
 	if err != nil {
@@ -257,8 +293,15 @@ func TestC14(t *testing.T) {
 	chainProperty(t, "C14", func(r *Runner, fail func(class, witness, detail string)) Hooks {
 		seenHashes := map[common.Hash]string{}
 		bloomFinding := ""
+		qiRLPFinding = ""
 		return Hooks{
 			End: func(w *World) {
+				if qiRLPFinding != "" {
+					d := qiRLPFinding
+					qiRLPFinding = ""
+					fail("wire-roundtrip", "object=tx type=2 work-fields path=binary qi-rlp-without-work-fields", d)
+					return
+				}
 				if bloomFinding != "" {
 					fail("disk-roundtrip", "object=receipts receipt-root etx-log-bloom-unset", bloomFinding)
 				}
@@ -329,7 +372,7 @@ func TestC14(t *testing.T) {
 				}
 				for i, tx := range append(append(types.Transactions{}, blk.Transactions()...), blk.OutboundEtxs()...) {
 					if err := txRoundTrips(tx, LocZone); err != nil {
-						fail("wire-roundtrip", fmt.Sprintf("object=tx type=%d", tx.Type()), fmt.Sprintf("block #%d item %d (%x): %v", bi.Number, i, tx.Hash().Bytes()[:6], err))
+						fail("wire-roundtrip", fmt.Sprintf("object=tx type=%d path=%s", tx.Type(), strings.SplitN(err.Error(), ":", 2)[0]), fmt.Sprintf("block #%d item %d (%x): %v", bi.Number, i, tx.Hash().Bytes()[:6], err))
 						return
 					}
 					simkit.Global.Inc("tx_roundtrips")
@@ -338,7 +381,7 @@ func TestC14(t *testing.T) {
 						hashes := map[common.Hash]int{tx.Hash(): -1}
 						for vi, v := range vs {
 							if err := txRoundTrips(v, LocZone); err != nil {
-								fail("wire-roundtrip", fmt.Sprintf("object=tx type=%d work-fields=%03b", tx.Type(), vi+1), fmt.Sprintf("block #%d item %d with work fields present %03b (parent hash, mix hash, work nonce): %v", bi.Number, i, vi+1, err))
+								fail("wire-roundtrip", fmt.Sprintf("object=tx type=%d work-fields=%03b path=%s", tx.Type(), vi+1, strings.SplitN(err.Error(), ":", 2)[0]), fmt.Sprintf("block #%d item %d with work fields present %03b (parent hash, mix hash, work nonce): %v", bi.Number, i, vi+1, err))
 								return
 							}
 							if prev, dup := hashes[v.Hash()]; dup {
